@@ -3,6 +3,8 @@ package main
 import (
 	"fmt"
 	"path/filepath"
+	"runtime/debug"
+	"strings"
 	"time"
 
 	"github.com/protobom/protobom/pkg/sbom"
@@ -19,7 +21,13 @@ func init() { runners["C15"] = runC15 }
 func callWithTimeout(d time.Duration, f func()) (finished bool, panicVal any) {
 	done := make(chan any, 1)
 	go func() {
-		defer func() { done <- recover() }()
+		defer func() {
+			r := recover()
+			if r != nil {
+				r = fmt.Sprintf("%v\n%s", r, trimStack(debug.Stack()))
+			}
+			done <- r
+		}()
 		f()
 	}()
 	select {
@@ -354,4 +362,19 @@ func runC15(seed int64, n int, dir string, tier string) *Report {
 	rep.CasesFiles = cf.Write(filepath.Join(dir, "cases_C15"))
 	rep.ShardSize = shardSize
 	return rep
+}
+
+// trimStack keeps the frames of a panic stack that are inside the library under test.
+func trimStack(b []byte) string {
+	var keep []string
+	lines := strings.Split(string(b), "\n")
+	for i := 0; i+1 < len(lines); i++ {
+		if strings.Contains(lines[i+1], "/repo/") || strings.Contains(lines[i+1], "tools-golang") || strings.Contains(lines[i+1], "cyclonedx-go") {
+			keep = append(keep, strings.TrimSpace(lines[i])+" @ "+strings.TrimSpace(lines[i+1]))
+		}
+	}
+	if len(keep) > 6 {
+		keep = keep[:6]
+	}
+	return strings.Join(keep, "\n")
 }
